@@ -61,6 +61,30 @@ func poolHistory(cs Case) {
 	default:
 		h = logger.NewJsonHandler(io.Discard, opts)
 	}
+	if cs.PoolKind >= 3 {
+		// kinds 3..5: the earlier record's size sits in its group path (one long WithGroup name, or many
+		// short ones), written through a nano / text / json handler: whatever scratch the handlers keep
+		// for key prefixes and open groups has been grown by it
+		switch cs.PoolKind {
+		case 3:
+			h = logger.NewTextHandler(io.Discard, opts)
+		case 4:
+			h = logger.NewJsonHandler(io.Discard, opts)
+		default:
+			h = logger.NewNanoHandler(io.Discard, opts)
+		}
+		l := logger.New(h)
+		if cs.PoolBytes%2 == 0 {
+			l = l.WithGroup(strings.Repeat("G", cs.PoolBytes))
+		} else {
+			for n := 0; n < cs.PoolBytes; n += 8 {
+				l = l.WithGroup("grp" + strconv.Itoa(n))
+			}
+		}
+		l.Info("big", "v", 1, slog.Group("inner", "w", 2))
+		l.With("pre", 1).Info("big", "v", 1)
+		return
+	}
 	logger.New(h).Info("big", "v", strings.Repeat("x", cs.PoolBytes))
 }
 
